@@ -111,6 +111,30 @@ class HeapInterp(Interp):
             return
         super().store(lv, v)
 
+    def run(self, start=None, stop_blocks=(), max_steps=400, event_hook=None):
+        return super().run(start=start, stop_blocks=stop_blocks, max_steps=max_steps, event_hook=self._hook)
+
+    def _hook(self, e, it):
+        """constructor initialisers: link fields of `this` are stores into the heap; a base-class node constructor is
+        interpreted on the same cell"""
+        if e["e"] != "init":
+            return None
+        if "field" in e:
+            f = erase(e["field"]).rsplit("::", 1)[-1]
+            if f in FIELD:
+                self.heap.cells[self.this][f] = self.cell_of(e["x"])
+            return "skip"
+        x = e.get("x")
+        if "base" in e and isinstance(x, list) and x[:1] == ["ctor"] and "list_elem" in erase(e["base"]):
+            callee = self.tu.fns.get(x[1])
+            if callee is None or not callee.has_body:
+                raise Unknown("body of the node constructor")
+            if self.depth >= 4:
+                raise Unknown("constructor nesting")
+            ps = {i: ("ref", self.cell_of(a)) for i, a in enumerate(x[3])}
+            HeapInterp(self.tu, callee, self.heap, self.this, ps, self.depth + 1).run()
+        return "skip"
+
     def _oracle(self, kind, t, it):
         if kind == "call":
             name = erase(t[2]) if t[0] in ("call", "mcall", "opcall") else ""
@@ -118,7 +142,42 @@ class HeapInterp(Interp):
             if short in ("invariant_check", "ignore"):
                 return None
             if t[0] == "ctor":
-                return ("obj", "tmp")      # iterator{t}
+                # iterator{node} / an elidable copy of an iterator keeps denoting the node
+                if len(t) > 3 and len(t[3]) == 1:
+                    try:
+                        v = self.ev(t[3][0])
+                        if isinstance(v, tuple) and v and v[0] in ("ptr", "ref"):
+                            return ("ptr", v[1])
+                    except Unknown:
+                        pass
+                return ("obj", "tmp")
+            # the list's own queries and its iterator, in terms of the heap
+            if name == "trompeloeil::list::begin":
+                return ("ptr", self.heap.cells[self.cell_of(t[3])]["next"])
+            if name == "trompeloeil::list::end":
+                return ("ptr", self.cell_of(t[3]))
+            if name == "trompeloeil::list::empty":
+                c = self.cell_of(t[3])
+                return self.heap.cells[c]["next"] == c
+            if name in ("trompeloeil::list::iterator::operator*", "trompeloeil::list::iterator::operator->"):
+                return ("ptr", self.cell_of(t[4][0]))
+            if name == "trompeloeil::list::iterator::operator++":
+                lv = self.lval(t[4][0])
+                cur = self.cell_of(t[4][0])
+                nv = ("ptr", self.heap.cells[cur]["next"])
+                self.store(lv, nv)
+                return nv if len(t[4]) == 1 else ("ptr", cur)
+            if name in ("trompeloeil::operator!=", "trompeloeil::operator=="):
+                a, b = self.cell_of(t[4][0]), self.cell_of(t[4][1])
+                return (a != b) if name.endswith("!=") else (a == b)
+            if short in ("push_front", "push_back") and t[0] == "mcall" and self.depth < 3:
+                callee = self.tu.fns.get(t[1])
+                if callee is None or not callee.has_body:
+                    raise Unknown("callee body of " + name)
+                ps = {i: ("ref", self.cell_of(a)) for i, a in enumerate(t[4])}
+                sub = HeapInterp(self.tu, callee, self.heap, self.cell_of(t[3]), ps, self.depth + 1)
+                r = sub.run()
+                return r[1] if r[0] == "return" else None
             if short in ("unlink", "is_linked", "operator=") and t[0] in ("mcall", "opcall") and self.depth < 3:
                 recv = t[3] if t[0] == "mcall" else t[4][0]
                 cell = self.cell_of(recv)
